@@ -1,6 +1,9 @@
 #!/bin/bash
-# Applies a stored seeded change (seeded/<dir>/patch.diff) to /repo, runs the
-# pinned suite of the util modules and the given checks, and restores /repo.
+# Applies a stored seeded change (seeded/<dir>/patch.diff) to a scratch worktree
+# of /repo, runs the pinned suite of the util modules there, and runs the given
+# checks from a scratch copy of /verif whose harness builds against that
+# worktree. /repo and /verif are not touched, so this may run next to other
+# checks. Everything under /tmp is removed at the end.
 # usage: tools/seedtest.sh <seeded dir name> <property id>... [-- tier]
 cd "$(dirname "$0")/.."
 export GOFLAGS=-mod=mod GOPROXY=off GOSUMDB=off GOTOOLCHAIN=local
@@ -8,15 +11,22 @@ d=$1; shift
 tier=quick
 ids=()
 while [ $# -gt 0 ]; do if [ "$1" = "--" ]; then tier=$2; break; fi; ids+=("$1"); shift; done
-if [ -n "$(git -C /repo status --porcelain)" ]; then echo "/repo not clean"; exit 2; fi
-git -C /repo apply "$PWD/seeded/$d/patch.diff" || { echo "patch does not apply"; exit 2; }
-trap 'git -C /repo checkout -- . ; git -C /repo clean -fdq' EXIT
+R=/tmp/seedrepo.$$; V=/tmp/seedverif.$$
+cleanup() { git -C /repo worktree remove --force $R 2>/dev/null; rm -rf $R $V; git -C /repo worktree prune; }
+trap cleanup EXIT
+git -C /repo worktree add --detach -q $R HEAD || exit 2
+# the worktree starts from HEAD; carry over uncommitted changes of /repo, if any
+git -C /repo diff HEAD | git -C $R apply --allow-empty 2>/dev/null
+git -C $R apply "$PWD/seeded/$d/patch.diff" || { echo "patch does not apply"; exit 2; }
 fails=0
 for m in util/semver util/maven util/pypi util/resolve; do
-  out=$(cd /repo/$m && go test -vet=off -count=1 ./... 2>&1 | grep -v "^ok\|no test files")
+  out=$(cd $R/$m && go test -vet=off -count=1 ./... 2>&1 | grep -v "^ok\|no test files")
   [ -n "$out" ] && { echo "SUITE FAILS in $m:"; echo "$out" | head -5; fails=1; }
 done
 [ $fails = 0 ] && echo "suite: passes"
+rsync -a --exclude .git --exclude .build --exclude logs --exclude replays --exclude evidence --exclude seeded ./ $V/
+sed -i "s#=> /repo/#=> $R/#" $V/harness/go.mod
+export VERIF_REPO=$R
 for id in "${ids[@]}"; do
-  ./check $id $tier 2>&1 | grep -E "^(OK|VIOLATION|INCONCLUSIVE)|observed=" | head -3 | cut -c1-400
+  (cd $V && ./check $id $tier 2>&1) | grep -E "^(OK|VIOLATION|INCONCLUSIVE|BUILD-FAILURE)|observed=" | head -3 | cut -c1-400
 done
